@@ -229,6 +229,53 @@ fn overlap_rules() {
     assert_eq!(c.borrow().read(), 8);
 }
 
+// ---- may a Reference cross a thread boundary? Decided at compile time by method resolution: the
+// inherent method (bounded on Send) is a candidate only if the bound holds, else the blanket trait
+// method is picked. If the type system lets an Rc-backed Reference cross, the program crosses it
+// and churns the reference counts from two threads: the interpreter then reports the data race.
+struct Carrier<T>(Option<T>);
+trait StayHome<T> {
+    fn cross(&mut self, _work: fn(T)) -> Option<std::thread::JoinHandle<()>> {
+        None
+    }
+}
+impl<T> StayHome<T> for Carrier<T> {}
+#[allow(dead_code)]
+impl<T: Send + 'static> Carrier<T> {
+    fn cross(&mut self, work: fn(T)) -> Option<std::thread::JoinHandle<()>> {
+        let content = self.0.take().unwrap();
+        Some(std::thread::spawn(move || work(content)))
+    }
+}
+fn churn(h: Reference<Payload>) {
+    for _ in 0..20 {
+        let extra = h.clone();
+        let _ = extra.borrow().read();
+        drop(extra);
+    }
+}
+fn thread_crossing() {
+    println!("CASE refs thread_crossing");
+    let drops = Arc::new(AtomicUsize::new(0));
+    let r = rc_ref_cell_reference(Payload { v: 3, drops: drops.clone() });
+    let mut carrier = Carrier(Some(r.clone()));
+    let crossed = carrier.cross(churn);
+    let did_cross = crossed.is_some();
+    if did_cross {
+        println!("NOTE an Rc-backed Reference was allowed to move to another thread");
+    }
+    churn(r.clone());
+    if let Some(h) = crossed {
+        h.join().unwrap();
+    }
+    drop(carrier);
+    assert_eq!(drops.load(Ordering::SeqCst), 0);
+    assert_eq!(r.borrow().read(), 3);
+    drop(r);
+    assert_eq!(drops.load(Ordering::SeqCst), 1);
+    assert!(!did_cross, "a Reference that may hold an Rc<RefCell<_>> or a bare pointer is Send");
+}
+
 fn statics() {
     println!("CASE refs statics");
     let a = static_reference!(i64, 5);
@@ -293,7 +340,8 @@ fn main() {
         to_dyn_outlives(v);
     }
     overlap_rules();
+    thread_crossing();
     statics();
     threads();
-    println!("DONE cases={}", cases + 6);
+    println!("DONE cases={}", cases + 7);
 }
